@@ -2,7 +2,8 @@
 # usage: regress_seeds.sh [budget_s]  -- every seeded change against the check(s) that caught it
 # (meta.json "caught_by", default: its own property); prints one line per change.
 B=${1:-45}
-cd /verif
+ROOT=$(cd "$(dirname "$0")/.." && pwd)
+cd "$ROOT"
 for d in seeded/*/; do
   id=$(basename $d)
   props=$(python3 -c "
